@@ -1,7 +1,259 @@
-(* C06 — pipeline placeholder; replaced by the real statements *)
-From Gdsl.Model Require Import Base NodeOps.
-From Gdsl.Proofs Require Import NodeLemmas.
+(* C06 — Priority-first search expands nodes in priority order.
+   Model: coq/model/Search.v: the worklist machine run with an exact functional transcription of Rust's
+   std::collections::BinaryHeap (sift_up / sift_down_to_bottom, `<=` of Node resp. Reverse<Node>), kinds KPfsMin / KPfsMax.
+   vleb is the node-value type's `<=` (a total preorder, as Rust's Ord guarantees). wl_loop_log is wl_loop instrumented
+   to return, for every pop, (popped node, queue right after the pop, tree at that moment); wl_loop_log_erase shows it is
+   the same machine. The heap property of the transcription (HeapOrd) is PROVED (coq/proofs/StdHeap.v), not monitored. *)
+From Gdsl.Model Require Import Spec Callback.
+From Gdsl.Proofs Require Import StdHeap Worklist Pfs.
 
-Theorem C06_placeholder_to_nil : forall (E : Type) v, to_ v (@nil (nat * E)) = [].
-Proof. exact to_nil. Qed.
-Print Assumptions C06_placeholder_to_nil.
+(* the instrumented loop returns exactly what wl_loop returns *)
+Theorem c06_instrumentation_is_erasable :
+  forall (K V E : Type) (keqb : K -> K -> bool) (CB : Type)
+         (cb : CB -> heap K V E -> edge E -> CB * heap K V E * bool) (Q : Type) (qpush : Q -> nat -> Q)
+         (qpop : Q -> option (nat * Q)) (d : dir) (target : option K) (fuel : nat) 
+         (st : sst K V E CB) (q : Q),
+       fst (wl_loop_log keqb cb qpush qpop d target fuel st q) =
+       wl_loop keqb cb qpush qpop d target fuel st q.
+Proof. exact wl_loop_log_erase. Qed.
+Print Assumptions c06_instrumentation_is_erasable.
+
+(* run_search for the pfs kinds is the (erased) instrumented run the next theorems speak about *)
+Theorem c06_run_is_logged_run :
+  forall (K V E : Type) (keqb : K -> K -> bool) (vleb : V -> V -> bool) (CB : Type)
+         (cb : CB -> heap K V E -> edge E -> CB * heap K V E * bool) (h : heap K V E) 
+         (d : dir) (root : nat) (c0 : CB) (maxmode : bool) (t : option K) (cyc : bool) 
+         (fuel : nat),
+       run_search keqb cb vleb (if maxmode then KPfsMax else KPfsMin) d fuel h c0 root t cyc =
+       fst
+         (wl_loop_log keqb cb (heap_push (pq_le vleb h maxmode)) (heap_pop (pq_le vleb h maxmode)) d
+            (if cyc then keyof h root else t) fuel (init_st h c0 root (negb cyc)) [root]).
+Proof. exact pfs_run_log. Qed.
+Print Assumptions c06_run_is_logged_run.
+
+(* whenever a node u is popped for expansion, every node still in the frontier has a value >= u's (min) / <= u's (max) *)
+Theorem c06_pop_minimal :
+  forall (K V E : Type) (keqb : K -> K -> bool),
+       KeqbSpec keqb ->
+       forall vleb : V -> V -> bool,
+       (forall a b : V, vleb a b = true \/ vleb b a = true) /\
+       (forall a b c : V, vleb a b = true -> vleb b c = true -> vleb a c = true) ->
+       forall (CB : Type) (cb : CB -> heap K V E -> edge E -> CB * heap K V E * bool)
+         (accept : edge E -> bool) (h : heap K V E),
+       Wf h ->
+       KeysInj h ->
+       PureCb h cb accept ->
+       forall (d : dir) (root : nat),
+       root < size h ->
+       forall (c0 : CB) (maxmode : bool) (t : option K) (cyc : bool) (fuel : nat)
+         (res : sst K V E CB * status) (log : list (log_entry E (list nat))) (u : nat) 
+         (q' : list nat) (tree : list (edge E)),
+       wl_loop_log keqb cb (heap_push (pq_le vleb h maxmode)) (heap_pop (pq_le vleb h maxmode)) d
+         (if cyc then keyof h root else t) fuel (init_st h c0 root (negb cyc)) [root] = (
+       res, log) ->
+       In (u, q', tree) log ->
+       forall y : nat,
+       In y q' ->
+       (if maxmode then node_le vleb h y u else node_le vleb h u y) = true /\
+       (exists vu vy : V,
+          valof h u = Some vu /\ valof h y = Some vy /\ (if maxmode then vleb vy vu else vleb vu vy) = true).
+Proof. exact pfs_pop_minimal_vals. Qed.
+Print Assumptions c06_pop_minimal.
+
+(* the frontier (popped node + queue) is exactly the set of discovered (root or target of a recorded edge) and not yet expanded nodes, without duplicates *)
+Theorem c06_frontier_is_discovered_unexpanded :
+  forall (K V E : Type) (keqb : K -> K -> bool),
+       KeqbSpec keqb ->
+       forall vleb : V -> V -> bool,
+       (forall a b : V, vleb a b = true \/ vleb b a = true) /\
+       (forall a b c : V, vleb a b = true -> vleb b c = true -> vleb a c = true) ->
+       forall (CB : Type) (cb : CB -> heap K V E -> edge E -> CB * heap K V E * bool)
+         (accept : edge E -> bool) (h : heap K V E),
+       Wf h ->
+       KeysInj h ->
+       PureCb h cb accept ->
+       forall (d : dir) (root : nat),
+       root < size h ->
+       forall (c0 : CB) (maxmode : bool) (t : option K) (cyc : bool) (fuel : nat)
+         (res : sst K V E CB * status) (log : list (log_entry E (list nat)))
+         (l1 : list (nat * list nat * list (edge E))) (u : nat) (q' : list nat) (tree : list (edge E))
+         (l2 : list (nat * list nat * list (edge E))),
+       wl_loop_log keqb cb (heap_push (pq_le vleb h maxmode)) (heap_pop (pq_le vleb h maxmode)) d
+         (if cyc then keyof h root else t) fuel (init_st h c0 root (negb cyc)) [root] = (
+       res, log) ->
+       log = l1 ++ (u, q', tree) :: l2 ->
+       NoDup (u :: q') /\
+       NoDup (root :: map (edst (E:=E)) tree) /\
+       (forall y : nat,
+        In y (u :: q') <->
+        (y = root \/ In y (map (edst (E:=E)) tree)) /\ ~ In y (map (e_node (Q:=list nat)) l1)) /\
+       Permutation (u :: q')
+         (filter (fun y : nat => negb (existsb (Nat.eqb y) (map (e_node (Q:=list nat)) l1)))
+            (root :: map (edst (E:=E)) tree)).
+Proof. exact frontier_is_discovered_unexpanded. Qed.
+Print Assumptions c06_frontier_is_discovered_unexpanded.
+
+(* C06 read literally: no discovered, not yet expanded node has a strictly smaller (strictly larger for max) value than the node being expanded *)
+Theorem c06_no_strictly_better_waiting :
+  forall (K V E : Type) (keqb : K -> K -> bool),
+       KeqbSpec keqb ->
+       forall vleb : V -> V -> bool,
+       (forall a b : V, vleb a b = true \/ vleb b a = true) /\
+       (forall a b c : V, vleb a b = true -> vleb b c = true -> vleb a c = true) ->
+       forall (CB : Type) (cb : CB -> heap K V E -> edge E -> CB * heap K V E * bool)
+         (accept : edge E -> bool) (h : heap K V E),
+       Wf h ->
+       KeysInj h ->
+       PureCb h cb accept ->
+       forall (d : dir) (root : nat),
+       root < size h ->
+       forall (c0 : CB) (maxmode : bool) (t : option K) (cyc : bool) (fuel : nat)
+         (res : sst K V E CB * status) (log : list (log_entry E (list nat)))
+         (l1 : list (nat * list nat * list (edge E))) (u : nat) (q' : list nat) (tree : list (edge E))
+         (l2 : list (nat * list nat * list (edge E))),
+       wl_loop_log keqb cb (heap_push (pq_le vleb h maxmode)) (heap_pop (pq_le vleb h maxmode)) d
+         (if cyc then keyof h root else t) fuel (init_st h c0 root (negb cyc)) [root] = (
+       res, log) ->
+       log = l1 ++ (u, q', tree) :: l2 ->
+       forall (y : nat) (vu vy : V),
+       y = root \/ In y (map (edst (E:=E)) tree) ->
+       ~ In y (map (e_node (Q:=list nat)) l1) ->
+       valof h u = Some vu -> valof h y = Some vy -> (if maxmode then vleb vy vu else vleb vu vy) <> false.
+Proof. exact pfs_no_strictly_better_waiting. Qed.
+Print Assumptions c06_no_strictly_better_waiting.
+
+(* BinaryHeap::push keeps the heap order *)
+Theorem c06_heap_push_order :
+  forall (le : nat -> nat -> bool) (l : list nat) (x : nat),
+       TotalPre le -> HeapOrd le l -> HeapOrd le (heap_push le l x).
+Proof. exact stdheap_push_ord. Qed.
+Print Assumptions c06_heap_push_order.
+
+(* BinaryHeap::pop returns a greatest element and keeps the heap order *)
+Theorem c06_heap_pop_order :
+  forall (le : nat -> nat -> bool) (l : list nat) (x : nat) (l' : list nat),
+       TotalPre le ->
+       HeapOrd le l ->
+       heap_pop le l = Some (x, l') -> HeapOrd le l' /\ (forall y : nat, In y l -> le y x = true).
+Proof. exact stdheap_pop_ord. Qed.
+Print Assumptions c06_heap_pop_order.
+
+(* push/pop neither lose nor invent elements (multiset specification), for every order test *)
+Theorem c06_heap_is_a_queue :
+  forall le : nat -> nat -> bool, QSpec (heap_push le) (heap_pop le) (fun q : list nat => q).
+Proof. exact stdheap_qspec. Qed.
+Print Assumptions c06_heap_is_a_queue.
+
+(* with a target: a returned path is a chain of accepted stored edges from the root to the target *)
+Theorem c06_path_sound :
+  forall (K V E : Type) (keqb : K -> K -> bool),
+       KeqbSpec keqb ->
+       forall (vleb : V -> V -> bool) (CB : Type) (cb : CB -> heap K V E -> edge E -> CB * heap K V E * bool)
+         (accept : edge E -> bool) (h : heap K V E),
+       Wf h ->
+       KeysInj h ->
+       PureCb h cb accept ->
+       forall (d : dir) (root : nat),
+       root < size h ->
+       forall (c0 : CB) (k : kind) (fuel : nat) (t : K) (st : sst K V E CB) (p : list (edge E)),
+       k = KPfsMin \/ k = KPfsMax ->
+       keyof h root <> Some t ->
+       search_path keqb cb vleb k d fuel h c0 root (Some t) false = (st, RPath p) ->
+       exists v : nat,
+         keyof h v = Some t /\
+         IsPath h d accept root p v /\
+         p <> [] /\ NoDup (map (edst (E:=E)) p) /\ ~ In root (map (edst (E:=E)) p).
+Proof. exact pfs_path_sound. Qed.
+Print Assumptions c06_path_sound.
+
+(* None only if the target is unreachable through accepted edges *)
+Theorem c06_path_complete :
+  forall (K V E : Type) (keqb : K -> K -> bool),
+       KeqbSpec keqb ->
+       forall (vleb : V -> V -> bool) (CB : Type) (cb : CB -> heap K V E -> edge E -> CB * heap K V E * bool)
+         (accept : edge E -> bool) (h : heap K V E),
+       Wf h ->
+       KeysInj h ->
+       PureCb h cb accept ->
+       forall (d : dir) (root : nat),
+       root < size h ->
+       forall (c0 : CB) (k : kind) (fuel : nat) (t : K) (st : sst K V E CB),
+       k = KPfsMin \/ k = KPfsMax ->
+       keyof h root <> Some t ->
+       search_path keqb cb vleb k d fuel h c0 root (Some t) false = (st, RNone E) ->
+       forall v : nat, keyof h v = Some t -> ~ Reach h d accept root v.
+Proof. exact pfs_path_complete. Qed.
+Print Assumptions c06_path_complete.
+
+(* search() returns the target node exactly when search_path() returns a path *)
+Theorem c06_search_agrees :
+  forall (K V E : Type) (keqb : K -> K -> bool),
+       KeqbSpec keqb ->
+       forall (vleb : V -> V -> bool) (CB : Type) (cb : CB -> heap K V E -> edge E -> CB * heap K V E * bool)
+         (accept : edge E -> bool) (h : heap K V E),
+       Wf h ->
+       KeysInj h ->
+       PureCb h cb accept ->
+       forall (d : dir) (root : nat),
+       root < size h ->
+       forall (c0 : CB) (k : kind) (fuel : nat) (t : K),
+       k = KPfsMin \/ k = KPfsMax ->
+       keyof h root <> Some t ->
+       match snd (search_path keqb cb vleb k d fuel h c0 root (Some t) false) with
+       | RNone _ => snd (search_find keqb cb vleb k d fuel h c0 root (Some t)) = RNone E
+       | RPath p =>
+           exists (v : nat) (p0 : list (edge E)) (w : edge E),
+             snd (search_find keqb cb vleb k d fuel h c0 root (Some t)) = RNode E v /\
+             p = p0 ++ [w] /\ edst w = v /\ keyof h v = Some t
+       | RFuel _ => snd (search_find keqb cb vleb k d fuel h c0 root (Some t)) = RFuel E
+       | _ => False
+       end.
+Proof. exact pfs_find_agrees. Qed.
+Print Assumptions c06_search_agrees.
+
+(* fuel_bound suffices *)
+Theorem c06_terminates :
+  forall (K V E : Type) (keqb : K -> K -> bool),
+       KeqbSpec keqb ->
+       forall (vleb : V -> V -> bool) (CB : Type) (cb : CB -> heap K V E -> edge E -> CB * heap K V E * bool)
+         (accept : edge E -> bool) (h : heap K V E),
+       Wf h ->
+       KeysInj h ->
+       PureCb h cb accept ->
+       forall (d : dir) (root : nat),
+       root < size h ->
+       forall (c0 : CB) (k : kind) (fuel : nat) (t : option K) (cyc : bool),
+       k = KPfsMin \/ k = KPfsMax ->
+       fuel_bound h <= fuel ->
+       snd (search_path keqb cb vleb k d fuel h c0 root t cyc) <> RFuel E /\
+       snd (search_find keqb cb vleb k d fuel h c0 root t) <> RFuel E.
+Proof. exact pfs_terminates. Qed.
+Print Assumptions c06_terminates.
+
+(* Ord / PartialOrd of nodes = comparison of their values *)
+Theorem c06_node_cmp :
+  forall (K V E : Type) (vcmp : V -> V -> comparison) (h : heap K V E) (a b : nat) (x y : V),
+       valof h a = Some x -> valof h b = Some y -> node_cmp vcmp h a b = Some (vcmp x y).
+Proof. exact node_cmp_spec. Qed.
+Print Assumptions c06_node_cmp.
+
+(* node equality = equality of keys *)
+Theorem c06_node_eq :
+  forall (K V E : Type) (keqb : K -> K -> bool),
+       KeqbSpec keqb ->
+       forall (h : heap K V E) (a b : nat) (ka kb : K),
+       keyof h a = Some ka -> keyof h b = Some kb -> node_eqb keqb h a b = true <-> ka = kb.
+Proof. exact node_eqb_spec. Qed.
+Print Assumptions c06_node_eq.
+
+
+Example c06_nonvacuous :
+  let ops : list (op nat nat nat) :=
+    [ONew 0 5; ONew 1 9; ONew 2 1; ONew 3 1; ONew 4 7; OConnect 0 1 10; OConnect 0 2 11; OConnect 0 3 12; OConnect 2 4 13; OConnect 3 4 14; OConnect 1 4 15] in
+  let h := fst (run_d Nat.eqb ops) in
+  let cb := @mk_cb nat nat nat (step_d Nat.eqb) false (fun _ _ _ => true) [] in
+  map (fun e => fst (fst e)) (rev (c_trace (s_cb (fst (search_path Nat.eqb cb Nat.leb KPfsMin DOut 100 h (cb0 nat) 0 None false)))))
+    = [0; 0; 0; 2; 3; 1] /\
+  map (fun e => fst (fst e)) (rev (c_trace (s_cb (fst (search_path Nat.eqb cb Nat.leb KPfsMax DOut 100 h (cb0 nat) 0 None false)))))
+    = [0; 0; 0; 1; 3; 2].
+Proof. vm_compute. auto. Qed.
